@@ -77,6 +77,15 @@ def h_shift(e, cfg):
     if cfg["delays"] == "zero":
         da = np.zeros(dshape, dtype=object)
         da[...] = F(0)
+    elif cfg["delays"] == "concrete":
+        # delays given the way a user writes them: Python-float multiples k * dt, stored in the float32 delay parameter; the index arithmetic on
+        # them is concrete and runs on the real float32 kernels, so the snapping of delay / dt onto the grid is exercised bit-exactly.
+        # The oracle reads exactly k steps back ("each a multiple of the step time").
+        ks = np.resize(np.array(cfg["steps"]), dshape)
+        D.delay = torch.tensor((ks * dt).tolist(), dtype=torch.float32)
+        da = np.empty(dshape, dtype=object)
+        for pos in np.ndindex(*dshape):
+            da[pos] = K(dt) * int(ks[pos]) if not (kind == "lateral" and pos[0] == pos[1]) else F(0)     # a lateral connection masks its self-delays to 0
     else:
         dl = e.sym(dshape, torch.float32, "d", lo=0, hi=K(mx))
         D.delay = dl
@@ -196,13 +205,20 @@ def checks(tier):
                             if kind == "conv" and delays != "zero" and (th or (syn in ("delta", "single") and dt == 1.3)):
                                 # a kernel with both sides > 1: the flattening order of the per-synapse delays matters
                                 cfgs.append(dict(kind=kind, syn=syn, dt=dt, max=mmul * dt, delays=delays, B=B, bias=False, T=(3 if th else 2), geom=(2, 3, 2, 2)))
+    # concrete Python-float delays k * dt at step times float32 cannot represent (delay / dt lands an ulp off the integer)
+    for kind in ("dense", "direct", "lateral", "conv"):
+        for syn in (tuple(SYN) if th else ("delta", "single")):
+            for dt, mmul, steps in (((1.3, 3, (3, 1, 0, 2)), (1.3, 7, (7, 3, 6, 0)), (0.1, 3, (3, 1, 2, 3)), (1.1, 5, (5, 3, 0, 4))) if th else ((1.3, 3, (3, 1, 0, 2)),)):
+                if not th and kind in ("lateral", "conv") and syn != "delta":
+                    continue
+                cfgs.append(dict(kind=kind, syn=syn, dt=dt, max=mmul * dt, delays="concrete", steps=steps, B=1, bias=False, T=(mmul + 2), after_clear=0))
     o = {"div_policy": "xr", "query_timeout_ms": 180000}
     return [Check("shift", h_shift, cfgs, opts=o, timeout_s=2400)]
 
 
 BOUNDS = {
     "quick": {"connections": ["dense 2->2", "direct 2", "lateral 2", "conv 1x2x2 k(1,2) F=2"], "synapses": 5, "dt": [1.0, 1.3], "max delay": "2dt",
-              "delay tensor": "symbolic per synapse: any real in [0,max] / constrained to the grid / all zero", "steps": "3, then clear() and 2 more (grid/zero delays, and every dense configuration)", "batch": 1},
+              "delay tensor": "symbolic per synapse: any real in [0,max] / constrained to the grid / all zero; and concrete Python-float multiples k*dt (k <= 3, dt = 1.3) whose float32 quotient is an ulp off the integer", "steps": "3, then clear() and 2 more (grid/zero delays, and every dense configuration)", "batch": 1},
     "thorough": {"max delay": ["dt", "2dt", "3dt"], "steps": "5, then clear() and 3 more", "batch": [1, 2]},
 }
-OUTSIDE = ["interpolation tolerance other than 0", "float32 snapping of delay/dt (delays are exact reals; grid points are k * float32(dt))"]
+OUTSIDE = ["interpolation tolerance other than 0", "float32 snapping of delay/dt for SYMBOLIC delays (exact reals; grid points are k * float32(dt)) - concrete k*dt delays run through the real float32 index arithmetic"]
